@@ -296,7 +296,13 @@ func ZZElect(ne, nr int) {
 // ensemble has the same size, contains the new server exactly once, not the old one, and no duplicates.
 func ZZReplace(n int) {
 	ids := vBytes("id", n+2)
-	mk := func(b byte) model.Server { s := string([]byte{b}); return model.Server{Public: s, Internal: s} }
+	// named servers: every value carries its own *string (as after a config reload or a status decode), so two
+	// values of the same server are equal by identifier but not bit-identical
+	mk := func(b byte) model.Server {
+		s := string([]byte{b})
+		nm := "n" + s
+		return model.Server{Name: &nm, Public: s, Internal: s}
+	}
 	var list []model.Server
 	for i := 0; i < n; i++ {
 		for j := 0; j < i; j++ {
@@ -313,7 +319,7 @@ func ZZReplace(n int) {
 	vAssert("drops-old", !listContains(res, from))
 	for i := range res {
 		for j := 0; j < i; j++ {
-			vAssert("no-duplicates", res[i].Internal != res[j].Internal)
+			vAssert("no-duplicates", res[i].GetIdentifier() != res[j].GetIdentifier())
 		}
 	}
 	merged := mergeLists(res, []model.Server{from})
